@@ -1505,6 +1505,9 @@ class Interp:
                 if items is None and isinstance(v, LazyGen):
                     args.append(StarOf(v))  # f(*(g(x) for x in S)): only a callee that knows what it means accepts it (spec binding)
                     continue
+                if items is None and hasattr(v, "elementwise"):
+                    args.append(v)  # a spec-level description of an argument list of symbolic length
+                    continue
                 if items is None:
                     raise Unsupported("*args of symbolic length")
                 args += items
